@@ -91,6 +91,17 @@ def JState.new (spec : Nat) (preloaded : Addr → Bool) : JState :=
   { state := fun _ => none, transient := fun _ _ => none, logs := [], depth := 0, journal := [[]],
     spec := spec, preloaded := preloaded }
 
+/-- wrapping 256-bit subtraction of words `< 2^256` (ruint `-=`). Written without `x + 2^256 - y`
+and without `(x + c) % 2^n`: Lean's defeq check unfolds `Nat.mod`/`Nat.sub` on such terms with a
+variable `x` by recursion on the literal and runs out of stack. -/
+def bsub (a b : Nat) : Nat := if b ≤ a then a - b else W - (b - a)
+
+/-- wrapping `usize` increment -/
+def incU64 (x : Nat) : Nat := if x = U64 - 1 then 0 else x + 1
+
+/-- wrapping `u64`/`usize` decrement (`-= 1` in the release profile) -/
+def decU64 (x : Nat) : Nat := if x = 0 then U64 - 1 else x - 1
+
 def setAcct (s : JState) (a : Addr) (acc : Acct) : JState :=
   { s with state := fun x => if x = a then some acc else s.state x }
 
@@ -166,8 +177,8 @@ def initialAccountLoad (db : Db) (s : JState) (a : Addr) (keys : List Nat) : JSt
 
 inductive TransferErr | outOfFunds | overflowPayment deriving DecidableEq, Repr
 
-/-- `transfer`: loads both, touches and debits `src`, then touches and credits `dst`.
-Note the order: on `OverflowPayment` the debit of `src` has already happened and is not journaled. -/
+/-- `transfer`: loads both, touches and debits `src`, then touches and credits `dst`; when the credit
+would overflow the debit is undone (repaired by a `fix:` commit, see known_findings.json) -/
 def transfer (db : Db) (s : JState) (src dst : Addr) (v : Nat) : Option (JState × Option TransferErr) := do
   let (s, _) ← loadAccount db s src
   let (s, _) ← loadAccount db s dst
@@ -177,7 +188,11 @@ def transfer (db : Db) (s : JState) (src dst : Addr) (v : Nat) : Option (JState 
   let s := setAcct s src { fromAcc with info := { fromAcc.info with balance := fromAcc.info.balance - v } }
   let toAcc ← s.state dst
   let (s, toAcc) ← touchAccount s dst toAcc
-  if toAcc.info.balance + v ≥ W then some (s, some .overflowPayment) else
+  if toAcc.info.balance + v ≥ W then do
+    -- the debit of `src` is not journaled yet: it is given back before the error is reported
+    let f ← s.state src
+    some (setAcct s src { f with info := { f.info with balance := U256.wadd f.info.balance v } }, some .overflowPayment)
+  else
   let s := setAcct s dst { toAcc with info := { toAcc.info with balance := toAcc.info.balance + v } }
   let s ← pushEntry s (.balanceTransfer src dst v)
   some (s, none)
@@ -240,11 +255,11 @@ def log (s : JState) (l : Nat) : JState := { s with logs := s.logs ++ [l] }
 
 /-- `checkpoint` -/
 def checkpoint (s : JState) : JState × Checkpoint :=
-  ({ s with depth := (s.depth + 1) % U64, journal := [] :: s.journal },
+  ({ s with depth := incU64 s.depth, journal := [] :: s.journal },
    { logI := s.logs.length, journalI := s.journal.length })
 
 /-- `checkpoint_commit` (release profile: `depth -= 1` wraps) -/
-def commit (s : JState) : JState := { s with depth := (s.depth + U64 - 1) % U64 }
+def commit (s : JState) : JState := { s with depth := decU64 s.depth }
 
 /-- undo of one journal entry (`journal_revert` body); `none` = `.unwrap()` panic -/
 def undoEntry (sd : Bool) (s : JState) : Entry → Option JState
@@ -261,21 +276,19 @@ def undoEntry (sd : Bool) (s : JState) : Entry → Option JState
                                      info := { acc.info with balance := U256.wadd acc.info.balance had } }
     if a ≠ target then do
       let t ← s.state target
-      some (setAcct s target { t with info := { t.info with balance := U256.wsub t.info.balance had } })
+      some (setAcct s target { t with info := { t.info with balance := bsub t.info.balance had } })
     else some s
   | .balanceTransfer src dst bal => do
     let f ← s.state src
     let s := setAcct s src { f with info := { f.info with balance := U256.wadd f.info.balance bal } }
     let t ← s.state dst
-    some (setAcct s dst { t with info := { t.info with balance := U256.wsub t.info.balance bal } })
+    some (setAcct s dst { t with info := { t.info with balance := bsub t.info.balance bal } })
   | .nonceChange a => do
     let acc ← s.state a
-    some (setAcct s a { acc with info := { acc.info with nonce := (acc.info.nonce + U64 - 1) % U64 } })
+    some (setAcct s a { acc with info := { acc.info with nonce := decU64 acc.info.nonce } })
   | .accountCreated a => do
     let acc ← s.state a
-    some (setAcct s a { acc with created := false,
-                                  storage := fun k => (acc.storage k).map fun sl => { sl with cold := true },
-                                  info := { acc.info with nonce := 0 } })
+    some (setAcct s a { acc with created := false, info := { acc.info with nonce := 0 } })
   | .storageWarmed a k => do
     let acc ← s.state a
     let sl ← acc.storage k
@@ -313,7 +326,7 @@ def revert (s : JState) (cp : Checkpoint) : Option JState :=
   match undoLevels sd s (s.journal.take n) with
   | none => none
   | some s' =>
-    some { s' with depth := (s.depth + U64 - 1) % U64, logs := s.logs.take cp.logI,
+    some { s' with depth := decU64 s.depth, logs := s.logs.take cp.logI,
                    journal := s.journal.drop n }
 
 /-- `selfdestruct`: (had_value, target_exists, previously_destroyed, is_cold) -/
@@ -364,7 +377,7 @@ def createAccountCheckpoint (s : JState) (caller a : Addr) (hasStorage : Bool) (
   let acc := if specId ≥ SPURIOUS_DRAGON then { acc with info := { acc.info with nonce := 1 } } else acc
   let s := setAcct s a acc
   let c ← s.state caller
-  let s := setAcct s caller { c with info := { c.info with balance := U256.wsub c.info.balance balance } }
+  let s := setAcct s caller { c with info := { c.info with balance := bsub c.info.balance balance } }
   let s ← pushEntry s (.balanceTransfer caller a balance)
   some (s, .ok cp)
 
